@@ -38,6 +38,10 @@ typedef signed char i8; typedef short i16; typedef int i32; typedef long long i6
 #define SGN_i64 1
 #define SGN_u64 0
 
+/* 16-bit parse / round-trip groups: split=CC_B:2:36, one cell per base; digits of 2^16-1 in that base */
+#ifdef CC_B
+#define CC_D16 (CC_B == 2 ? 16 : (CC_B == 3 ? 11 : (CC_B == 4 ? 8 : (CC_B <= 6 ? 7 : (CC_B <= 9 ? 6 : (CC_B <= 15 ? 5 : 4))))))
+#endif
 /* fixed bases of the 32/64-bit groups: cell index CC_BI -> base 8, 16 (powers of two: cells 0:1), 10, 36 (cells 2:3);
  * base 2 has its own groups (longer unwinding) */
 #ifdef CC_BI
@@ -344,8 +348,9 @@ void h_roundtrip_u16(void) { const int base = CC_B; ROUNDTRIP_PRE(u16, 16); ROUN
  * and declared kind=B. */
 /*@COMMON@*/
 /* value window (kind=B): |v| < 2^16, or within 2^16 of numeric_limits max, or of numeric_limits min */
-#define WINDOW_VAL(T) VF_INPUT(u8, win); { const vf_i128 vv = (vf_i128)v;                                                \
-    __CPROVER_assume(win == 0 ? (vv > -65536 && vv < 65536) : (win == 1 ? vv > HI_##T - 65536 : vv < LO_##T + 65536)); }
+#define WINDOW_VAL_(T, K) VF_INPUT(u8, win); { const vf_i128 vv = (vf_i128)v;                                             \
+    __CPROVER_assume(win == 0 ? (vv > -(K) && vv < (K)) : (win == 1 ? vv > HI_##T - (K) : vv < LO_##T + (K))); }
+#define WINDOW_VAL(T) WINDOW_VAL_(T, 65536)
 /* string windows (kind=B).  Measured: the cost of the string groups is dominated by the unwinding over the buffer length, a 64-bit
  * C-string cell over the full digits+3 domain needs 15 - 20+ min.  So the 64-bit C-library / <string> functions are checked
  * (a) on every string of length <= 8 (all byte values) and (b) on numerals next to the limits: no leading whitespace, optional
@@ -396,8 +401,8 @@ void h_to_chars_u64(void) { const int base = CC_BASE; FMT_PRE(u64, 64, CC_D64, C
   TO_CHARS_POST(u64, 64, CC_D64); }
 
 /* 64 bit, bases 10 and 36 (cells 2:3): the full domain does not finish in 20 min -> value window */
-/*@GROUP name=to_chars_i64_win props=C10,C02 kind=B bound=|v|<2^16_or_within_2^16_of_min/max unwind=28 tier=thorough timeout=1200 split=CC_BI:2:3 cost=5 solver=kissat@*/
-void h_to_chars_i64_win(void) { const int base = CC_BASE; FMT_PRE(i64, 64, CC_D64, CC_D64 + 3); WINDOW_VAL(i64);
+/*@GROUP name=to_chars_i64_win props=C10,C02 kind=B bound=|v|<2^12_or_within_2^12_of_min/max unwind=28 tier=thorough timeout=1200 split=CC_BI:2:3 cost=5 solver=kissat@*/
+void h_to_chars_i64_win(void) { const int base = CC_BASE; FMT_PRE(i64, 64, CC_D64, CC_D64 + 3); WINDOW_VAL_(i64, 4096);
   VF_KNOWN(C10_format_store_before_length_check, v != 0 && (L == 0 || (L == 1 && v < 0 && base == 10)));
   VF_KNOWN(C10_to_chars_exact_fit_rejected, v != 0 && L == n);
   VF_KNOWN(C10_format_sign_only_base10, v < 0 && base != 10);
@@ -483,20 +488,22 @@ void h_strto_len8(void) { const int base = CC_BASE; VF_INPUT(u8, fn); CSTR_IN(8)
   STRTO_ANY(fn)
   VF_REACH(); }
 
-/* numerals next to LONG_MIN / LONG_MAX / ULONG_MAX in bases 16 and 10 (cells 1:2): overflow exactly at the limits */
+/* numerals next to LONG_MIN / LONG_MAX / ULONG_MAX in bases 16 and 10 (cells 1:2): overflow exactly at the limits.  One function
+ * per group (strtol, strtoul, atol, stol, stoul); the long long twins are the same template instantiation shape and are covered on
+ * strlen <= 8. */
 /*@GROUP name=strtol_near props=C10,C02 kind=B bound=first_digits-4_digits_equal_LONG_MIN/MAX;no_whitespace unwind=29 tier=thorough timeout=1200 split=CC_BI:1:2 cost=7 solver=kissat@*/
-void h_strtol_near(void) { const int base = CC_BASE; VF_INPUT_BOOL(ll); CSTR_IN(CC_D64 + 3); NEAR_LIMIT_STR(i64, CC_D64 + 3); STRTO_PRE(i64, CC_D64 + 3, 0);
+void h_strtol_near(void) { const int base = CC_BASE; CSTR_IN(CC_D64 + 3); NEAR_LIMIT_STR(i64, CC_D64 + 3); STRTO_PRE(i64, CC_D64 + 3, 0);
   VF_KNOWN(C10_parse_plus_sign_rejected, r.plus);
   VF_KNOWN(C10_strto_out_of_range_result, r.cls == 2);
-  if (ll) { STRTO_POST(c_strtoll, long long); } else { STRTO_POST(c_strtol, long); }
+  STRTO_POST(c_strtol, long);
   VF_REACH(); }
 
 /*@GROUP name=strtoul_near props=C10,C02 kind=B bound=first_digits-4_digits_equal_ULONG_MAX;no_whitespace unwind=29 tier=thorough timeout=1200 split=CC_BI:1:2 cost=7 solver=kissat@*/
-void h_strtoul_near(void) { const int base = CC_BASE; VF_INPUT_BOOL(ll); CSTR_IN(CC_D64 + 3); NEAR_LIMIT_STR(u64, CC_D64 + 3); STRTO_PRE(u64, CC_D64 + 3, 1);
+void h_strtoul_near(void) { const int base = CC_BASE; CSTR_IN(CC_D64 + 3); NEAR_LIMIT_STR(u64, CC_D64 + 3); STRTO_PRE(u64, CC_D64 + 3, 1);
   VF_KNOWN(C10_parse_plus_sign_rejected, r.plus);
   VF_KNOWN(C10_parse_unsigned_minus_rejected, r.minus);
   VF_KNOWN(C10_strto_out_of_range_result, r.cls == 2);
-  if (ll) { STRTO_POST(c_strtoull, unsigned long long); } else { STRTO_POST(c_strtoul, unsigned long); }
+  STRTO_POST(c_strtoul, unsigned long);
   VF_REACH(); }
 
 /*@GROUP name=atoi props=C10,C02 kind=K unwind=17 cost=4 solver=kissat@*/
@@ -511,9 +518,9 @@ void h_atol_len8(void) { VF_INPUT_BOOL(ll); CSTR_IN(8); ATO_PRE(i64, 64, 8);
   VF_REACH(); }
 
 /*@GROUP name=atol_near props=C10,C02 kind=B bound=first_15_digits_equal_LONG_MIN/MAX;no_whitespace unwind=27 tier=thorough timeout=1200 cost=7 solver=kissat@*/
-void h_atol_near(void) { const int base = 10; VF_INPUT_BOOL(ll); CSTR_IN(23); NEAR_LIMIT_STR(i64, 23); ATO_PRE(i64, 64, 23);
+void h_atol_near(void) { const int base = 10; CSTR_IN(23); NEAR_LIMIT_STR(i64, 23); ATO_PRE(i64, 64, 23);
   VF_KNOWN(C10_parse_plus_sign_rejected, r.plus);
-  if (ll) ATO_POST(c_atoll, long long) else ATO_POST(c_atol, long)
+  ATO_POST(c_atol, long)
   VF_REACH(); }
 
 /*@GROUP name=stoi props=C10,C02 kind=K unwind=17 tier=thorough timeout=1200 split=CC_BI:0:3 cost=6 solver=kissat@*/
@@ -533,14 +540,14 @@ void h_sto_len8(void) { const int base = CC_BASE; VF_INPUT(u8, fn); RANGE_IN(8);
   VF_REACH(); }
 
 /*@GROUP name=stol_near props=C10,C02 kind=B bound=first_15_digits_equal_LONG_MIN/MAX;no_whitespace;base_10 unwind=28 tier=thorough timeout=1200 split=CC_BI:2:2 cost=7 solver=kissat@*/
-void h_stol_near(void) { const int base = CC_BASE; VF_INPUT_BOOL(ll); RANGE_IN(CC_D64 + 3); NEAR_LIMIT_STR(i64, CC_D64 + 3); STO_PRE(i64, 64, CC_D64 + 3, 0);
+void h_stol_near(void) { const int base = CC_BASE; RANGE_IN(CC_D64 + 3); NEAR_LIMIT_STR(i64, CC_D64 + 3); STO_PRE(i64, 64, CC_D64 + 3, 0);
   VF_KNOWN(C10_parse_plus_sign_rejected, r.plus);
-  if (ll) STO_POST(s_stoll, long long) else STO_POST(s_stol, long)
+  STO_POST(s_stol, long)
   VF_REACH(); }
 
 /*@GROUP name=stoul_near props=C10,C02 kind=B bound=first_16_digits_equal_ULONG_MAX;no_whitespace;base_10 unwind=28 tier=thorough timeout=1200 split=CC_BI:2:2 cost=7 solver=kissat@*/
-void h_stoul_near(void) { const int base = CC_BASE; VF_INPUT_BOOL(ll); RANGE_IN(CC_D64 + 3); NEAR_LIMIT_STR(u64, CC_D64 + 3); STO_PRE(u64, 64, CC_D64 + 3, 1);
+void h_stoul_near(void) { const int base = CC_BASE; RANGE_IN(CC_D64 + 3); NEAR_LIMIT_STR(u64, CC_D64 + 3); STO_PRE(u64, 64, CC_D64 + 3, 1);
   VF_KNOWN(C10_parse_plus_sign_rejected, r.plus);
   VF_KNOWN(C10_parse_unsigned_minus_rejected, r.minus);
-  if (ll) STO_POST(s_stoull, unsigned long long) else STO_POST(s_stoul, unsigned long)
+  STO_POST(s_stoul, unsigned long)
   VF_REACH(); }
